@@ -376,9 +376,8 @@ def BackOK (h : History) : Prop :=
     bt < t.tid ∧ ∃ t' ∈ h, t'.tid = bt ∧ ∃ r', t'.recOf r.oid = some r' ∧
       r'.data = r.data ∧ r'.dlen = r.dlen
 
-/-- oids marked by the first GC phase = reachable from the root at the pack time -/
-def ReachableAtT (h : History) (T : Tid) (o : Oid) : Prop :=
-  Reach.Reachable (refsAtT (h.takeWhile (fun t => decide (t.tid ≤ T)))) [0] o
+/-- reachable from the root at the pack time `T` = in the snapshot "before T+1" -/
+def ReachableAtT (h : History) (T : Tid) (o : Oid) : Prop := ReachableAt h (T + 1) o
 
 /-- **NoResurrection** (strengthened, see Props/C07.lean): a record written after `T` references
     an oid that is unreachable at `T` only if that oid has a record with `T < tid ≤` the
@@ -395,12 +394,10 @@ def NoResurrectionWeak (h : History) (T : Tid) : Prop :=
 /-! ### executable versions of the predicates (for the driver and for `decide`) -/
 
 /-- list of oids reachable from the root at the pack time (`none`: out of fuel — never) -/
-def reachListAtT (h : History) (T : Tid) : Option (List Oid) :=
-  let pre := h.takeWhile (fun t => decide (t.tid ≤ T))
-  Reach.closure (refsAtT pre) (Reach.fuelFor (refsAtT pre) [0] (allOids h)) [] [0]
-
 def reachListAt (h : History) (b : Tid) : Option (List Oid) :=
   Reach.closure (refsAt h b) (Reach.fuelFor (refsAt h b) [0] (allOids h)) [] [0]
+
+def reachListAtT (h : History) (T : Tid) : Option (List Oid) := reachListAt h (T + 1)
 
 def noResurrectionB (h : History) (T : Tid) (strong : Bool) : Bool :=
   match reachListAtT h T with
